@@ -402,7 +402,18 @@ func (x *Exec) visitInstr(fr *frame, instr ssa.Instruction) continuation {
 		fr.set(instr, x.conv(fr, instr.Type(), instr.X.Type(), fr.get(instr.X)))
 
 	case *ssa.SliceToArrayPointer:
-		abortf("SliceToArrayPointer unsupported")
+		sl := fr.get(instr.X).(Slice)
+		n := int(deref(instr.Type()).Underlying().(*types.Array).Len())
+		if len(sl.v) < n {
+			x.runtimePanic(fr, fmt.Sprintf("cannot convert slice with length %d to array or pointer to array with length %d", len(sl.v), n))
+		}
+		if sl.nil && n == 0 {
+			fr.set(instr, (*Value)(nil))
+		} else {
+			// the array cell shares its element storage with the slice's backing
+			var cell Value = Array(sl.v[:n:n])
+			fr.set(instr, &cell)
+		}
 
 	case *ssa.MakeInterface:
 		fr.set(instr, Iface{t: instr.X.Type(), v: fr.get(instr.X)})
@@ -970,6 +981,14 @@ func (x *Exec) zeroOrNil(t types.Type) (v Value) {
 }
 
 func (x *Exec) runInits(h *ssa.Function) {
+	// packages whose importers' initialisers are skipped but whose own package-level state is needed
+	for _, path := range []string{"net/netip"} {
+		if p := x.eng.prog.ImportedPackage(path); p != nil {
+			if init := p.Func("init"); init != nil {
+				x.callSSA(nil, nil, init, nil, nil)
+			}
+		}
+	}
 	if init := h.Pkg.Func("init"); init != nil {
 		x.callSSA(nil, nil, init, nil, nil)
 	}
